@@ -239,5 +239,6 @@ m("C07-revert-D31-updatenodeseg-keeps-callers-arrays", "C07", "actions/update_se
   "        self.pixels = tuple(np.array(p) for p in pixels)", "        self.pixels = pixels")
 m("C11-revert-D32-entries-with-the-same-old-value-not-gathered", "C11", "user_actions/user_update_segmentation.py",
   "            groups.setdefault(old_value, []).append(pixels)", "            groups.setdefault(len(groups), []).append(pixels)")
-m("C02-revert-D33-none-position-accepted", "C02", "user_actions/user_add_node.py",
-  "            if not all(attributes.get(key) is not None for key in pos_keys):", "            if not all(key in attributes for key in pos_keys):")
+# (D33 is repaired at two sites - UserAddNode's and AddNode's position check - either of
+# which refuses the request before anything is applied, so no one-replacement revert of it
+# is a break; the findings/D33-*.json replays guard the pair)
